@@ -98,6 +98,10 @@ CHECKS = [
   "every checker-accepted program among: the typed families of C01; a format family (every declaration kind x hidden x as-renaming x 0-2 keys x limit x bucket lists incl. 1e-7 and 1e9 boundaries; string literals over {a, escaped quote, escaped backslash, \\n escape, blank} up to length 3 as values and index keys; 10 regexes with slashes/escapes in 4 positions; every pair of 11 arithmetic/bitwise operators with each explicit parenthesisation and none, against relational and logical operators; del/del-after, multi-key indexing, decorators, else/otherwise/stop, unary ~, small and negative literals, builtins); the example programs (about 6 200 programs): parse -> check -> unparse -> parse gives a structurally equal syntax tree (reflection over every exported field of the ast node types except positions, symbols, scopes, types), and formatting the result again gives identical text",
   "the comparison is on unchecked parse trees (the checker's inserted conversions are not syntax)",
   "exhaustive bounded program enumeration with a round-trip oracle on the real parser, checker and formatter", "§3 C23"),
+ ("C24", "mtlgen", "exploration",
+  "every single-site mutant of the accepted programs of the C01 families (quick: every k-th program of each family, about 400 bases and 10 000 mutants; thorough: all, about 12 300 bases) for the defect kinds {undeclared metric, capture index too high, unknown capture name, capture used in a sibling block, undefined decorator, next outside a decorator, one index key too many / too few, redeclared name, unused declaration, invalid regular expression, regular expression over the length limit, integer division / modulus by the literal 0}: Compile returns errors and no code, at least one error position lies inside the source (file name, 1<=line<=lines, 1<=column<=line length+1), and Runtime.CompileAndRun refuses the program (error, no VM, prog_load_errors_total +1)",
+  "mutation sites are the nodes of the generator's own syntax trees; decorator definitions themselves are not mutated",
+  "exhaustive single-site mutation of an enumerated program corpus on the real compiler and loader", "§3 C24"),
 ]
 
 ENGINES = [
